@@ -149,6 +149,34 @@ func genMain(args []string) {
 			}
 		}
 	}
+	// (1b) every defined error code (-1 .. 120) in every error-code field of the responses: ApiVersions at every version,
+	// the other supported apis at their highest version
+	for _, sa := range kobs.Supported {
+		a := apiByKey(sa.Key)
+		lo, hi := versionRange(a)
+		vs := []int16{hi}
+		if a.Name == "ApiVersions" {
+			vs = nil
+			for v := lo; v <= hi; v++ {
+				vs = append(vs, v)
+			}
+		}
+		for _, v := range vs {
+			for code := int16(-1); code <= 120; code++ {
+				if tier == "quick" && a.Name != "ApiVersions" && code%4 != 3 {
+					continue
+				}
+				cfg := one
+				c := code
+				cfg.errCode = &c
+				e, err := buildExchange(cfg, a, v, nextCorr(), "client-"+a.Name, false)
+				if err != nil {
+					fail(err)
+				}
+				enc.Encode(assemble(fmt.Sprintf("%s-v%d-err%d", a.Name, v, code), "errcode", []Exchange{e, sentinel()}, inOrder(2)))
+			}
+		}
+	}
 	// (2) several requests in flight, unsupported apis interleaved, responses possibly reordered
 	nmix := 12
 	if tier != "quick" {
